@@ -27,7 +27,7 @@ def seeded(wave):
         m = json.load(open(os.path.join(d, 'meta.json')))
         det = ', '.join('/'.join(v) if len(v) > 1 and False else
                         (v[0] if len(v) == 1 else v[0] + '/' + '/'.join(x.split('.')[1] for x in v[1:]))
-                        for k, v in sorted(m.get('detected_by', {}).items()))
+                        for k, v in sorted(m.get('detected_by', {}).items()) if v)
         own = '' if m.get('own_property_check_detects') else ' (own check silent)'
         needs = ' '.join(m.get('needs_to_manifest', '').split())[:75].replace('|', '/')
         print(f"| {m['id']} | {m['breaks_property']} | {first_change_line(d)} | {needs} | {det or '—'}{own} | "
